@@ -143,6 +143,12 @@ func (a *Act) ghostCall(res ssa.Value, instr ssa.Instruction, fn *ssa.Function, 
 			return true
 		}
 	}
+	if fn.Name() == "specHas" && g.eng.inRepo(fn) && len(args) == 2 {
+		if res != nil {
+			a.bind(res, sel(st.H["MD"], args[0], args[1]))
+		}
+		return true
+	}
 	if fn.Name() == "specZeros" && g.eng.inRepo(fn) && len(args) == 1 {
 		if res != nil {
 			a.bind(res, fmt.Sprintf("(szeros %s)", args[0]))
@@ -167,6 +173,9 @@ func (a *Act) ghostCall(res ssa.Value, instr ssa.Instruction, fn *ssa.Function, 
 			pt := sig.Params().At(i).Type()
 			if isSpecSeqType(pt) {
 				x = fmt.Sprintf("(qofarr (select %s (sref %s)) (soff %s) (sllen %s))", st.H["Q"], x, x, x)
+			}
+			if isSpecMapType(pt) {
+				x = fmt.Sprintf("(mkSMap (select %s %s) (select %s %s))", st.H["MD"], x, st.H["MQ"], x)
 			}
 			as = append(as, x)
 		}
@@ -195,6 +204,11 @@ func (a *Act) ghostCall(res ssa.Value, instr ssa.Instruction, fn *ssa.Function, 
 
 // applyLemma instantiates a proven lemma: `lemma(args)` -- requires become obligations, ensures become assumptions.
 func (a *Act) applyLemma(u *Clause, st *State, phiEnv map[ssa.Value]string, reach string) {
+	a.applyLemmaR(u, st, phiEnv, reach, nil)
+}
+
+// applyLemmaR: results != nil: the lemma is instantiated at a return of the function (its arguments may mention result)
+func (a *Act) applyLemmaR(u *Clause, st *State, phiEnv map[ssa.Value]string, reach string, results []string) {
 	g := a.g
 	call, ok := u.Expr.(*ast.CallExpr)
 	if !ok {
@@ -214,15 +228,20 @@ func (a *Act) applyLemma(u *Clause, st *State, phiEnv map[ssa.Value]string, reac
 	if ct == nil || fn == nil {
 		panic(contractError{fmt.Sprintf("%s: unknown lemma %s", u.Where, key)})
 	}
-	e := a.newEnv(st, phiEnv, nil)
+	e := a.newEnv(st, phiEnv, results)
 	var args []string
+	specArg := map[int]bool{}
 	func() {
 		defer wrapClauseErr(u)
-		for _, ax := range call.Args {
-			args = append(args, e.value(e.eval(ax)).term)
+		for i, ax := range call.Args {
+			v := e.value(e.eval(ax))
+			if v.smap || v.spec {
+				specArg[i] = true
+			}
+			args = append(args, v.term)
 		}
 	}()
-	cs := &callSite{a: a, ct: ct, fn: fn, args: args, pre: st}
+	cs := &callSite{a: a, ct: ct, fn: fn, args: args, pre: st, specArg: specArg}
 	for i, cl := range ct.Requires {
 		for j, c := range cs.evalClause(cl, st, nil) {
 			g.oblige("lemma-pre", fmt.Sprintf("%s:%s:%s", u.Where, key, clauseLabel(cl, i, j)), reach, c, a.pos(a.fn.Pos()), "precondition of lemma "+key+": "+cl.Text)
